@@ -33,6 +33,7 @@ class Crash(BaseException):
 _ENG = None
 BV_BITS = 66
 POW2_BITS = 1101
+FP_SHAPES = []   # (goal, shape, relations) of float expressions whose exact evaluation decided an obligation (see rat_shape)
 FP_LOG = []      # (divisor, comparison, constant) of every `sym_int / const <op> const` evaluated exactly
 
 
@@ -813,14 +814,21 @@ class SymIntStr(str):
     isdigit = isdecimal = isnumeric
 
 
+def _leaf(x):
+    return ("c", x) if isinstance(x, (int, float)) else ("i", x)
+
+
 class Rat:
     """Exact rational num/den with (usually linear) integer terms; models Python
     true division where only comparisons and *const follow (percentages).
-    The IEEE rounding gap is closed separately by lemma L-pct (see DESIGN)."""
-    __slots__ = ("n", "d", "pure")
+    `tree` keeps the float expression as the code wrote it (div/mul/add/sub/neg over integer leaves and
+    constants) so that the IEEE rounding gap can be closed per expression shape by a QF_FP lemma (rat_shape,
+    harness/lemmas.shape_lemma)."""
+    __slots__ = ("n", "d", "pure", "tree")
 
-    def __init__(self, n, d):
+    def __init__(self, n, d, tree=None):
         self.pure = False
+        self.tree = tree if tree is not None else ("div", _leaf(n), _leaf(d))
         # normalise sign of d to positive
         if isinstance(d, int):
             if d == 0:
@@ -839,37 +847,37 @@ class Rat:
         if isinstance(o, Rat):
             return o
         if isinstance(o, (int, SymInt)):
-            return Rat(o, 1)
+            return Rat(o, 1, _leaf(o))
         if isinstance(o, float) and o == int(o):
-            return Rat(int(o), 1)
+            return Rat(int(o), 1, _leaf(o))
         raise Unsupported("rational op with %r" % (o,))
 
     def __mul__(self, o):
         o = self._c(o)
-        return Rat(self.n * o.n, self.d * o.d)
+        return Rat(self.n * o.n, self.d * o.d, ("mul", self.tree, o.tree))
 
     __rmul__ = __mul__
 
     def __truediv__(self, o):
         o = self._c(o)
-        return Rat(self.n * o.d, self.d * o.n)
+        return Rat(self.n * o.d, self.d * o.n, ("div", self.tree, o.tree))
 
     def __rtruediv__(self, o):
         o = self._c(o)
-        return Rat(o.n * self.d, o.d * self.n)
+        return Rat(o.n * self.d, o.d * self.n, ("div", o.tree, self.tree))
 
     def __add__(self, o):
         o = self._c(o)
-        return Rat(self.n * o.d + o.n * self.d, self.d * o.d)
+        return Rat(self.n * o.d + o.n * self.d, self.d * o.d, ("add", self.tree, o.tree))
 
     __radd__ = __add__
 
     def __sub__(self, o):
         o = self._c(o)
-        return Rat(self.n * o.d - o.n * self.d, self.d * o.d)
+        return Rat(self.n * o.d - o.n * self.d, self.d * o.d, ("sub", self.tree, o.tree))
 
     def __neg__(self):
-        return Rat(-self.n, self.d)
+        return Rat(-self.n, self.d, ("neg", self.tree))
 
     def _cmp(self, o, op, name="?"):
         if self.pure and isinstance(o, (int, float)) and isinstance(self.d, int):
@@ -919,6 +927,57 @@ class Rat:
 
     def __repr__(self):
         return "<rat %r/%r>" % (self.n, self.d)
+
+
+def rat_shape(tree):
+    """(shape, leaves): the expression with its integer leaves numbered in order of first appearance (syntactically
+    equal terms share a number) and the leaf terms themselves."""
+    leaves = []
+
+    def rec(t):
+        k = t[0]
+        if k == "c":
+            return ("c", t[1])
+        if k == "i":
+            for j, l in enumerate(leaves):
+                if l is t[1] or z3.eq(lift(l), lift(t[1])):
+                    return ("i", j)
+            leaves.append(t[1])
+            return ("i", len(leaves) - 1)
+        return (k,) + tuple(rec(x) for x in t[1:])
+    return rec(tree), leaves
+
+
+def leaf_relations(E, leaves):
+    """Strongest order relation the path condition implies between each pair of leaves: ((i, j, rel), ...)."""
+    rels = []
+    for i in range(len(leaves)):
+        for j in range(i + 1, len(leaves)):
+            a, b = leaves[i], leaves[j]
+            if not E.feasible(a != b):
+                r = "eq"
+            elif not E.feasible(a >= b):
+                r = "lt"
+            elif not E.feasible(a > b):
+                r = "le"
+            elif not E.feasible(a <= b):
+                r = "gt"
+            elif not E.feasible(a < b):
+                r = "ge"
+            else:
+                r = None
+            if r:
+                rels.append((i, j, r))
+    return tuple(rels)
+
+
+def record_fp_shape(E, goal, value):
+    """Remember that `value` (a Rat) was judged exactly against `goal`; the harness closes the rounding gap per shape."""
+    if not isinstance(value, Rat):
+        return
+    shape, leaves = rat_shape(value.tree)
+    pos = tuple(j for j, l in enumerate(leaves) if not E.feasible(l <= 0))
+    FP_SHAPES.append((goal, shape, leaf_relations(E, leaves), pos))
 
 
 # ---- builtins replacements ---------------------------------------------------
